@@ -130,6 +130,13 @@ def main():
                 sk = test_kinds[(vi + (1 if op == "double_layer" else 0)) % (3 if not ctx.quick else 2)]
                 optsT = S.draw_opts(rng, mA, S.Topo(mA.V, mA.E), *KA[tk], variant=vi)[0] or {}
                 optsS = S.draw_opts(rng, mB, S.Topo(mB.V, mB.E), *KA[sk], variant=vi + 1)[0] or {}
+                # swapped-normal flags that differ between the trial and the test space (natural on disjoint grids)
+                for o in (optsT, optsS):
+                    o.pop("swapped_normals", None)
+                if vi % 2 == 1:
+                    optsT["swapped_normals"] = [int(sorted(optsT.get("segments") or set(mA.D.tolist()))[-1])]
+                elif vi % 4 == 2:
+                    optsS["swapped_normals"] = [int(sorted(optsS.get("segments") or set(mB.D.tolist()))[0])]
                 r = int(rng.integers(2, 7))
                 par = O.params(api, r, 4)
                 with ctx.guard(cid, "disjoint:%s.%s" % (fam, op), allow=S.ALLOWED_REJECTIONS):
